@@ -8,6 +8,8 @@ from bounded import geo
 def chain(kind):
     """Structures in which occurrences of the search pattern share atoms."""
     from mofun import Atoms
+    first_n = kind.endswith('-N0')
+    kind = kind.replace('-N0', '')
     cell = geo.CELLS['cubic']
     if kind == 'CNC':       # two C-N matches sharing the N
         els, pos = 'CNC', [[5., 5, 5], [6.2, 5, 5], [7.4, 5, 5]]
@@ -15,6 +17,10 @@ def chain(kind):
         els, pos = 'CNCNC', [[5., 5, 5], [6.2, 5, 5], [7.4, 5, 5], [8.6, 5, 5], [9.8, 5, 5]]
     elif kind == 'separate':
         els, pos = 'CNCN', [[5., 5, 5], [6.2, 5, 5], [5., 12, 5], [6.2, 12, 5]]
+    if first_n:
+        # same atoms listed with the shared N atoms first (the doubly-claimed atom is then atom 0)
+        order = sorted(range(len(els)), key=lambda i: (els[i] != 'N', i))
+        els, pos = ''.join(els[i] for i in order), [pos[i] for i in order]
     with quiet():
         return Atoms(elements=list(els), positions=np.array(pos, dtype=float), cell=cell)
 
@@ -41,7 +47,7 @@ def pats(kind):
 def expected_overlap(struct_kind, pat_kind, replace_all):
     """Does some atom get removed by two matches?  Computed from first principles: matches are the adjacent (C, N) pairs,
     each removes its atoms except those shared by both patterns (none when replace_all)."""
-    els = {'CNC': 'CNC', 'CNCNC': 'CNCNC', 'separate': 'CN|CN'}[struct_kind]
+    els = {'CNC': 'CNC', 'CNCNC': 'CNCNC', 'separate': 'CN|CN'}[struct_kind.replace('-N0', '')]     # the order of the atoms is immaterial
     matches = []
     idx = 0
     for seg in els.split('|'):
@@ -155,7 +161,7 @@ def check(spec):
         return "AtomsShouldNotBeDeletedTwice raised although no atom would be removed twice (or the caller asked to ignore / replacement empty)"
     if res is not None and not overlap:
         # each structure atom removed at most once: atom count as computed from distinct removed atoms
-        nmatch = {'CNC': 2, 'CNCNC': 4, 'separate': 2}[spec['structure']]
+        nmatch = {'CNC': 2, 'CNCNC': 4, 'separate': 2}[spec['structure'].replace('-N0', '')]
         if spec.get('f', 1.0) < 1.0:
             nmatch = round(spec['f'] * nmatch)
         shared = {} if spec['replace_all'] else {'keep-N': 1, 'keep-C': 1, 'keep-both': 2, 'none-shared': 0, 'empty': 0, 'moved-N': 0}[spec['pattern']]
@@ -184,7 +190,7 @@ def run(rec, tier, seed):
                 "the caller did not ask to ignore it; plus an asymmetric three-atom pattern whose occurrences share an atom in different roles (retained by "
                 "one match, removed by the other / removed by both / retained by both) x the same flags. distinct = all combinations (exhaustive over this grid)")
     rec.exhaustive = True
-    for st in ('CNC', 'CNCNC', 'separate'):
+    for st in ('CNC', 'CNCNC', 'separate', 'CNC-N0', 'CNCNC-N0'):
         for pk in ('keep-N', 'keep-C', 'keep-both', 'none-shared', 'empty', 'moved-N'):
             for ra in (False, True):
                 for ig in (False, True):
